@@ -134,7 +134,7 @@ func rangeHeaders(n int64) []string {
 }
 
 func runC11(c *engine.Ctx) {
-	c.Rule = "case = (object size 0..N, Range header from the menu: every first/last/suffix value in -1..N+2 and around 2^31/2^63/2^64/10^30, whitespace variants, malformed specs, other units, multiple ranges) on every backend (and, on the memory backend, of an archived and of the current version read by versionId in a versioned bucket), compared with the arithmetic oracle and across backends; distinct_nontrivial = distinct (size, header) cases that are served as a satisfiable range"
+	c.Rule = "case = (object size 0..N, Range header from the menu: every first/last/suffix value in -1..N+2 and around 2^31/2^63/2^64/10^30, whitespace variants, malformed specs, other units, multiple ranges) on every backend (and, on the memory backend, of an archived and of the current version read by versionId in a versioned bucket), compared with the arithmetic oracle and across backends; plus, through the backends' Go API, every range request value {Start, End, FromEnd} in 0..N+1 used for two objects of different sizes in a row against a request value of its own; distinct_nontrivial = distinct (size, header) cases that are served as a satisfiable range"
 	c.Assumptions = append(c.Assumptions, "200 and 206 are both accepted for a served range (statement does not fix it)", "multi-range headers: 416 or the whole object (no other failure, as the statement says), identical on all backends", "optional whitespace (space, tab) around the spec and its numbers may be trimmed (then served correctly) or rejected", "a Range header sent on two lines is the comma-joined list, i.e. a multi-range")
 	N := int64(8)
 	kinds := drv.AllKinds
@@ -311,6 +311,7 @@ func runC11(c *engine.Ctx) {
 		c.Count(vname, "requests", int64(total))
 		w.Close()
 	}
+	c11GoAPI(c, kinds, N)
 	// identical across backends
 	for ck, m := range perCase {
 		first := ""
